@@ -1021,6 +1021,7 @@ int SchedMain(const std::map<std::string, std::string> &a, const std::string &cm
     po.budget_s = atof(get("budget", "0").c_str());
     po.log_dir = log_dir;
     po.hashlog = hashlog;
+    po.permute = po.budget_s > 0;
     PoolResult pr = RunPool(po, cb);
     for (int w = 0; w < 64; ++w) {
       char name[512];
